@@ -14,7 +14,8 @@ Modelling decisions (each one is listed in props/C16.py TRUSTED / ASSUMPTIONS)
     (sound for every statement about *all* members; the "without repetition" clause is out of its reach).
   * set of DotBracket objects: DotBracket has a value __eq__/__hash__ over (sequence, structure); the set is modelled as a
     set of object identities, which again only admits more members (value-duplicates) than Python does.
-  * itertools.combinations / permutations / product, dict.update, sorted: assumed contracts below (EXTERNALS).
+  * itertools.combinations / permutations / product, dict.update, sorted(key=..): assumed contracts below (EXTERNALS); the order of
+    two structure texts is the uninterpreted relation text_le (no order on lists of characters in the spec language).
   * tuples produced by permutations()/product() are modelled as immutable sequences (lists) - the code under contract only
     takes len() of them, indexes them and iterates over them.
 """
@@ -22,7 +23,7 @@ import z3
 
 from contracts.common_c import *  # noqa: F401,F403
 from contracts import common_c as _c
-from contracts.mapping_c import _defaultdict, _sorted_set
+from contracts.mapping_c import _defaultdict
 
 
 def spec(f):
@@ -45,6 +46,7 @@ UFUNS.update({
     "groups_small": (["int"], "bool"),    # property quantifier: every group of mutually crossing stems has few (<= 30) stems
     "srt": (["int", "int"], "int"),       # srt(c, t): the position, in component c, of its t-th stem in the order of the levels F
     "srti": (["int", "int"], "int"),      # ... and the inverse
+    "text_le": (["int", "int"], "bool"),  # x.structure <= y.structure for two DotBracket objects (Python's order on str)
 })
 
 
@@ -205,6 +207,35 @@ def _dict_update(e, args, kw, node, st):
     return None
 
 
+def _sorted_keyed(e, args, kw, node, st):
+    """ASSUMED (documented) contract of sorted(S, key=lambda d: <expr over d>[, reverse=<constant>]) for a set S of objects: a list
+    holding exactly the members of S, each once, non-decreasing in the key (non-increasing with reverse=True).  Keys that are
+    texts cannot be compared in the spec language (no order on lists of characters): the order of the keys is an uninterpreted
+    relation over the objects - text_le(x, y), standing for x.structure <= y.structure, when the key is `d.structure`, and a
+    relation of its own for any other key expression (so that nothing about text_le follows from a sort by another key).
+    Assumes the key function raises nothing."""
+    import ast as _ast
+    from pyvc.values import Unsupported, VFunc, VSet, sel, to_z3, uid
+    key, rev = kw.get("key"), kw.get("reverse", False)
+    if len(args) != 1 or not isinstance(args[0], VSet) or args[0].kshape[0] != "ref" or set(kw) - {"key", "reverse"} \
+            or not isinstance(rev, bool) or not (isinstance(key, VFunc) and key.kind == "lambda") or e.binders:
+        raise Unsupported("sorted(): only sorted(<set of objects>, key=<lambda>[, reverse=<constant>]) is modelled here")
+    lam = key.payload[0]
+    if len(lam.args.args) != 1:
+        raise Unsupported("sorted(): key function of one argument expected")
+    par, body = lam.args.args[0].arg, lam.body
+    if isinstance(body, _ast.Attribute) and isinstance(body.value, _ast.Name) and body.value.id == par and body.attr == "structure":
+        le = e.ufuns["text_le"]
+    else:
+        canon = _ast.unparse(body).replace(par, "_")
+        le = e.ufun("key_le[" + canon + "]", z3.IntSort(), z3.IntSort(), z3.BoolSort())
+    L = e.set_enumeration(args[0], st)
+    q, r = _ints("q", "r")
+    at = lambda t: to_z3(sel(L.elems, t).ident)
+    st.assume(z3.ForAll([q, r], z3.Implies(z3.And(q >= 0, q < r, r < to_z3(L.length)), le(at(r), at(q)) if rev else le(at(q), at(r)))))
+    return L
+
+
 def _plain(e, args, kw, node, st):
     """spec view plain(d) of a defaultdict d: the same keys and values as an ordinary dict (a read of a missing key in a
     specification is then just an unspecified value instead of the default) - keeps the terms of ghost copies small"""
@@ -215,7 +246,7 @@ def _plain(e, args, kw, node, st):
 
 EXTERNALS = {
     "collections.defaultdict": _defaultdict,
-    "builtins.sorted": _sorted_set,
+    "builtins.sorted": _sorted_keyed,
     "itertools.combinations": _combinations,
     "itertools.permutations": _permutations,
     "itertools.product": _product,
@@ -269,6 +300,18 @@ def same_graph(g, G):
 @spec
 def knot_free(R):
     return forall(lambda a, b: implies(0 <= a and a < len(R) and 0 <= b and b < len(R), not cross(R, a, b)))
+
+
+@spec
+def round_only(s):
+    """the text uses only round brackets and dots"""
+    return forall(lambda x: implies(0 <= x and x < len(s), s[x] == '(' or s[x] == ')' or s[x] == '.'))
+
+
+@spec
+def fc_is(R, L):
+    """L lists the first-come-first-served levels of the stems R (FC, characterised by FC_def(R)), all of them bracket types"""
+    return FC_def(R) and forall(lambda a: implies(0 <= a and a < len(R), FC(a) < 30 and L[a] == FC(a)))
 
 
 @spec
@@ -330,16 +373,15 @@ LEMMAS.update({
     # common_c: FC_def, the characterisation proved for BpSeq.fcfs) are a proper greedy-stable assignment, so by the
     # completeness clause of all_dot_brackets their painting is a member.  Proved by SMT.
     "fcfs_levels_are_proper_and_greedy_stable": {
-        "kind": "smt", "params": ["R"], "shapes": ["list[tuple[int,int,int]]"],
-        "requires": ["FC_def(R)", "forall(lambda a: implies(0 <= a and a < len(R), FC(a) < 30))"],
+        "kind": "smt", "params": ["R", "L"], "shapes": ["list[tuple[int,int,int]]", "list[int]"],
+        "requires": ["fc_is(R, L)"],
         "steps": ["define tg(x, l) = True",
-                  "let FCL = [FC(a) for a in range(len(R))]",
                   "forall a, b | assert implies(0 <= b and b < a and a < len(R) and cross(R, a, b), taken(a, FC(b)))"
                   " | assert implies(0 <= b and b < a and a < len(R) and cross(R, a, b), FC(a) != FC(b))",
                   "forall a, l | assert implies(0 <= a and a < len(R) and 0 <= l and l < FC(a), taken(a, l))"
                   " | assert implies(tg(a, l) and 0 <= a and a < len(R) and 0 <= l and l < FC(a), "
                   "exists(lambda b: 0 <= b and b < len(R) and cross(R, a, b) and FC(b) == l))"],
-        "ensures": ["proper(R, FCL)", "greedy_stable(R, FCL)"]},
+        "ensures": ["proper(R, L)", "greedy_stable(R, L)"]},
     # every finite list can be sorted by a key: srt(c, .) rearranges the positions of component c so that the levels F do not
     # decrease.  ASSUMED (mathematical fact; srt / srti are otherwise unconstrained symbols, one pair per component).
     "sorted_rearrangement": {"kind": "definition", "params": ["C", "F", "c"],
@@ -445,11 +487,43 @@ class all_dot_brackets:
     ensures = ["forall(lambda q: implies(0 <= q and q < len(result), member_ok(self.entries, result[q])))",
                "implies(knot_free(regions), len(result) == 1)",
                "implies(not knot_free(regions) and proper(regions, F) and greedy_stable(regions, F), "
-               "exists(lambda q: 0 <= q and q < len(result) and painted(result[q].structure, regions, F, len(regions))))"]
+               "exists(lambda q: 0 <= q and q < len(result) and painted(result[q].structure, regions, F, len(regions))))",
+               "implies(knot_free(regions), round_only(result[0].structure))",
+               "implies(not knot_free(regions) and fc_is(regions, F), "
+               "exists(lambda q: 0 <= q and q < len(result) and painted(result[q].structure, regions, F, len(regions))))",
+               "forall(lambda q, r: implies(0 <= q and q < r and r < len(result), text_le(result[q], result[r])))"]
     ensures_labels = {0: "every-member-lossless", 1: "single-notation-when-pseudoknot-free",
-                      2: "every-proper-greedy-stable-assignment-is-a-member"}
+                      2: "every-proper-greedy-stable-assignment-is-a-member",
+                      3: "round-brackets-only-when-pseudoknot-free", 4: "fcfs-notation-is-a-member",
+                      5: "ordered-by-structure-text"}
     ghost_exit = ["forall u | reveal HF | assert HF(0) == (proper(regions, F) and greedy_stable(regions, F))",
-                  "forall u | reveal GC | assert graph_complete(GR, regions)"]
+                  "forall u | reveal GC | assert graph_complete(GR, regions)",
+                  # pseudoknotted: the FCFS levels are proper and greedy-stable (lemma), hence their painting is a member
+                  "use fcfs_levels_are_proper_and_greedy_stable(regions, F) when fc_is(regions, F)",
+                  # pseudoknot-free: the single member is self.fcfs (ghost results fcfs_R / fcfs_O / fcfs_G of its contract).  Its stems
+                  # fcfs_R do not cross either: two crossing stems of fcfs_R would start with two crossing base pairs, which lie on
+                  # two different crossing stems of `regions` (every pair lies on one: GS; strands of different stems are apart)
+                  "assert implies(knot_free(regions), len(result) == 1 and result[0] is fcfs_result)",
+                  "forall a, b | let x = fcfs_R[a][0] - 1 | let y = fcfs_R[b][0] - 1 | let g = GS[fcfs_R[a][0] - 1] | let h = GS[fcfs_R[b][0] - 1]"
+                  " | let hyp = knot_free(regions) and 0 <= a and a < len(fcfs_R) and 0 <= b and b < len(fcfs_R) "
+                  "and fcfs_R[a][0] < fcfs_R[b][0] and fcfs_R[b][0] < fcfs_R[a][1] and fcfs_R[a][1] < fcfs_R[b][1]"
+                  " | assert implies(hyp, 0 <= x and x < y and y < len(self.entries) and self.entries[x].pair == fcfs_R[a][1] "
+                  "and self.entries[y].pair == fcfs_R[b][1] and qual(self.entries[x]) and qual(self.entries[y]))"
+                  " | assert implies(hyp, 0 <= g and g < len(regions) and on5(regions, g, x) and 0 <= h and h < len(regions) and on5(regions, h, y))"
+                  " | assert implies(hyp, fcfs_R[a][1] - 1 == partner(regions, g, x) and fcfs_R[b][1] - 1 == partner(regions, h, y))"
+                  " | assert implies(hyp, g != h)"
+                  " | use strands_apart(self.entries, regions, g, h) | use strands_apart(self.entries, regions, h, g)"
+                  " | assert implies(hyp, cross(regions, g, h))"
+                  " | assert not hyp",
+                  "forall a, b | assert implies(knot_free(regions) and 0 <= a and a < len(fcfs_R) and 0 <= b and b < len(fcfs_R), not cross(fcfs_R, a, b))",
+                  # ... so nothing is ever taken and every first-come-first-served level is 0: only '(' ')' '.'
+                  "use FC_definition(fcfs_R) when knot_free(regions)",
+                  "forall a | assert implies(knot_free(regions) and 0 <= a and a < len(fcfs_R), not taken(a, 0))"
+                  " | assert implies(knot_free(regions) and 0 <= a and a < len(fcfs_R), FC(a) == 0 and fcfs_O[a] == 0)",
+                  "forall x | assert implies(knot_free(regions) and 0 <= x and x < len(result[0].structure), "
+                  "fcfs_G[x] == 0 - 1 or (0 <= fcfs_G[x] and fcfs_G[x] < len(fcfs_R) and fcfs_O[fcfs_G[x]] == 0))"
+                  " | assert implies(knot_free(regions) and 0 <= x and x < len(result[0].structure), "
+                  "result[0].structure[x] == '(' or result[0].structure[x] == ')' or result[0].structure[x] == '.')"]
     raises = []
     modifies = []
     # completeness is stated for an ARBITRARY level assignment F (a ghost parameter: nothing is required of it; the
@@ -457,7 +531,10 @@ class all_dot_brackets:
     ghost_params = {"F": "list[int]"}
     callee_variants = {"BpSeq.__make_dot_bracket": "dict"}
     defaultdicts = ["graph"]
-    ghost_entry = ["define tg(x, l) = True"]  # a trigger term for clauses quantifying over (stem, level); identically True
+    ghost_entry = ["define tg(x, l) = True",  # a trigger term for clauses quantifying over (stem, level); identically True
+                   # ghost results of the BpSeq.fcfs call of the early exit (bound on every path; the call re-binds them)
+                   "let fcfs_R = empty('list[tuple[int,int,int]]')", "let fcfs_O = fill(0, 0)", "let fcfs_G = fill(0, 0)",
+                   "let fcfs_result = ref(DotBracket, 0)"]
     locals = {"graph": "dict[int,set[int]]", "components": "list[list[int]]", "unique": "list[set[int]]",
               "solutions": "set[DotBracket]", "next_vertex": "opt[int]"}
     loops = {
